@@ -49,6 +49,23 @@ def handle (j : Json) : R (List (String × Json)) := do
     return [("model", matrix cmp vecs),
             ("oracle", Json.mkObj (lawsOn impl allSingle ++
               [("model_forms_agree", Json.bool lexAgree), ("lex_with_zeros_identified", Json.bool specOk)]))]
+  else if k == "realgoal" then
+    -- a real pragmatic goal (single-objective layers) on real solutions: the matrix the implementation reports must be the
+    -- lexicographic comparison of the fitness vectors it reports, the laws hold of it, and neither changed on re-evaluation
+    let impl ← fld j "impl"
+    match impl.getObjVal? "error" with
+    | .ok _ => return [("model", impl), ("oracle", Json.mkObj []), ("info", Json.mkObj [("no_solution", Json.bool true)])]
+    | .error _ => pure ()
+    let fits ← listF (listOf asU64) impl "fits"
+    let m ← parseMatrix (← fld impl "m")
+    let stable ← boolF impl "stable"
+    let idx := List.range fits.length
+    let specOk := idx.all (fun i => idx.all (fun k2 => get2 m i k2 == goalSpec (fits.getD i []) (fits.getD k2 [])))
+    let modelM := matrix singleGoalCmp fits
+    return [("model", Json.mkObj [("fits", fldD impl "fits" Json.null), ("m", modelM), ("stable", Json.bool true),
+                                  ("unassigned", fldD impl "unassigned" Json.null)]),
+            ("oracle", Json.mkObj (lawsOn m true ++
+              [("lex_with_zeros_identified", Json.bool specOk), ("fitness_and_comparison_do_not_change_on_re_evaluation", Json.bool stable)]))]
   else if k == "dom" then
     let os ← listF ordOf j "os"
     return [("model", jOrd (domOrder os)), ("oracle", Json.mkObj [])]
